@@ -32,6 +32,9 @@ type C17Case struct {
 	// ReqHeaders: header lines of the triggering request (handler routes): a user agent or an attacker's fetch() may send range
 	// and cache-validation headers with any request; the page must not be cut, re-framed or dropped because of them.
 	ReqHeaders [][2]string `json:"request_headers,omitempty"`
+	// BrokenFirst > 0 (handler routes): the same provider first serves the same request to a user agent that goes away after
+	// that many bytes of the page; the page under test is the next one.
+	BrokenFirst int `json:"broken_first,omitempty"`
 }
 
 var c17ReqHeaders = [][2]string{{"Range", "bytes=0-99"}, {"Range", "bytes=100-"}, {"Range", "bytes=0-10,20-30,-5"}, {"Range", "bytes=-1"}, {"If-Range", "\"x\""}, {"If-None-Match", "*"}, {"If-Match", "*"}, {"If-Match", "\"nope\""},
@@ -89,6 +92,9 @@ func genC17Case(t *rapid.T) C17Case {
 		c.URL = "https://sp.example/" + genHostile(t, "urltail", 4)
 	}
 	c.Done = rapid.Bool().Draw(t, "done")
+	if rapid.IntRange(0, 3).Draw(t, "brokenfirst") == 0 {
+		c.BrokenFirst = rapid.SampledFrom([]int{1, 50, 200, 500, 900, 2000}).Draw(t, "brokenafter")
+	}
 	for i := rapid.IntRange(-3, 2).Draw(t, "nreqheaders"); i > 0; i-- {
 		c.ReqHeaders = append(c.ReqHeaders, rapid.SampledFrom(c17ReqHeaders).Draw(t, "reqheader"))
 	}
@@ -358,6 +364,11 @@ func c17Run(c C17Case) ([]*ev.Violation, string) {
 	s2, hr := build(c.RelayState, url)
 	hr.Headers = append(hr.Headers, c.ReqHeaders...)
 	w := mustBuild(s2)
+	if c.BrokenFirst > 0 {
+		first := hr
+		first.FailWriteAfter = c.BrokenFirst
+		obs.Do(w.Handler, first)
+	}
 	rep := obs.Do(w.Handler, hr)
 	if rep.Panic != "" {
 		return []*ev.Violation{ev.V("C17/panic", "handler panicked: %s", short(rep.Panic, 100))}, "panic"
